@@ -97,6 +97,10 @@ func msgScenario(c *Ctx, mm msgMatcher, mc msgCase) *Scenario {
 	if mm.heap != nil {
 		mm.heap(sc.Heap)
 	}
+	if root := c.Fn(mm.fn); root != nil {
+		// parsers of the same package (FromBytes ...) are evaluated in place
+		sc.Inline = func(f *ssa.Function) bool { return f.Pkg != nil && f.Pkg == root.Pkg && f != root && f.Parent() == nil }
+	}
 	// package-level byte/string variables with constant initialisers are part of the program text
 	if fn := c.Fn(mm.fn); fn != nil && fn.Pkg != nil {
 		pk := short(fn.Pkg.Pkg.Path())
@@ -155,6 +159,83 @@ func msgScenario(c *Ctx, mm msgMatcher, mc msgCase) *Scenario {
 			return read(st, args[1], args[2].N)
 		case callee == "layer4.(*Connection).Read" && len(args) == 2:
 			return read(st, args[1], 1)
+		case callee == "bytes.NewBuffer" && len(args) == 1:
+			id := ev.fresh("cbuf")
+			st.heap[id+".data"] = args[0]
+			st.heap[id+".pos"] = symInt(0)
+			return symRef(id, false), true
+		case callee == "(*bytes.Buffer).Len" && len(args) == 1:
+			if d, ok := st.heap[args[0].Desc+".data"]; ok && d.Len != nil && d.Len.Known {
+				return symInt(d.Len.N - st.heap[args[0].Desc+".pos"].N), true
+			}
+		case callee == "(*bytes.Buffer).Bytes" && len(args) == 1:
+			if d, ok := st.heap[args[0].Desc+".data"]; ok && d.Len != nil && d.Len.Known {
+				pos := st.heap[args[0].Desc+".pos"].N
+				l := symInt(d.Len.N - pos)
+				return SV{K: "slice", Desc: fmt.Sprintf("%s[%d:]", d.Desc, pos), Len: &l, Cap: &l}, true
+			}
+		case callee == "encoding/binary.Read" && len(args) == 3:
+			d, ok := st.heap[args[0].Desc+".data"]
+			if !ok {
+				break
+			}
+			all, okb := concreteBytes(st, d)
+			if !okb {
+				break
+			}
+			pos := st.heap[args[0].Desc+".pos"].N
+			little := false
+			if mi, ok := ev.curCall.Call.Args[1].(*ssa.MakeInterface); ok {
+				little = byteOrderOf(mi.X.Type()) == "LE"
+			}
+			var pt types.Type
+			if mi, ok := ev.curCall.Call.Args[2].(*ssa.MakeInterface); ok {
+				pt = mi.X.Type()
+			} else if args[2].DynT != nil {
+				pt = args[2].DynT
+			}
+			ptr, isPtr := pt.(*types.Pointer)
+			if !isPtr {
+				break
+			}
+			failed := false
+			var put func(t types.Type, addr string)
+			put = func(t types.Type, addr string) {
+				switch u := t.Underlying().(type) {
+				case *types.Struct:
+					for i := 0; i < u.NumFields(); i++ {
+						put(u.Field(i).Type(), addr+"."+u.Field(i).Name())
+					}
+				case *types.Array:
+					for i := int64(0); i < u.Len(); i++ {
+						put(u.Elem(), fmt.Sprintf("%s[%d]", addr, i))
+					}
+				case *types.Basic:
+					n, okSz := sizeOfFixed(t)
+					if !okSz || pos+n > int64(len(all)) {
+						failed = true
+						return
+					}
+					var v int64
+					for i := int64(0); i < n; i++ {
+						if little {
+							v |= int64(all[pos+i]) << (8 * uint(i))
+						} else {
+							v = v<<8 | int64(all[pos+i])
+						}
+					}
+					st.heap[addr] = symInt(v)
+					pos += n
+				default:
+					failed = true
+				}
+			}
+			put(ptr.Elem(), args[2].Desc)
+			if failed {
+				return SV{K: "ref", Known: true, Desc: "io.ErrUnexpectedEOF"}, true
+			}
+			st.heap[args[0].Desc+".pos"] = symInt(pos)
+			return symNil(), true
 		case callee == "bytes.Equal" && len(args) == 2:
 			a, ok1 := concreteBytes(st, args[0])
 			b, ok2 := concreteBytes(st, args[1])
@@ -231,7 +312,40 @@ func constOfTV(tv types.TypeAndValue) *SV {
 	return &sv
 }
 
+func wgMsg(n int, typ byte, reserved byte) []byte {
+	b := make([]byte, n)
+	if n > 0 {
+		b[0] = typ
+	}
+	if n > 1 {
+		b[1] = reserved
+	}
+	for i := 4; i < n; i++ {
+		b[i] = byte(i)
+	}
+	return b
+}
+
 var msgMatchers = []msgMatcher{
+	{
+		fn: "modules/l4wireguard.(*MatchWireGuard).Match", cfgName: "wireguard zero=0",
+		heap: func(h map[string]SV) { h["m.Zero"] = symInt(0) },
+		cases: []msgCase{
+			{"handshake initiation", wgMsg(148, 1, 0), "yes"},
+			{"keepalive (empty transport)", wgMsg(32, 4, 0), "yes"},
+			{"148 bytes of type 2", wgMsg(148, 2, 0), "no"},
+			{"148 bytes of type 4", wgMsg(148, 4, 0), "no"},
+			{"32 bytes of type 1", wgMsg(32, 1, 0), "no"},
+			{"initiation with non-zero reserved bytes", wgMsg(148, 1, 7), "no"},
+			{"keepalive with non-zero reserved bytes", wgMsg(32, 4, 1), "no"},
+			{"handshake response (92 bytes)", wgMsg(92, 2, 0), "no"},
+			{"147 bytes", wgMsg(147, 1, 0), "no"},
+			{"149 bytes", wgMsg(149, 1, 0), "no"},
+			{"33 bytes", wgMsg(33, 4, 0), "no"},
+			{"empty", []byte{}, "more"},
+		},
+		source: "WireGuard protocol: a first datagram is a 148-byte handshake initiation (type 1) or a 32-byte keepalive (type 4); little-endian type, three reserved bytes equal to the configured value (0)",
+	},
 	{
 		fn: "modules/l4ssh.(*MatchSSH).Match", cfgName: "ssh",
 		cases: []msgCase{
